@@ -113,6 +113,19 @@ CHECKS = {
         "require": ["parses", "parses_ok", "parses_err", "schema_roundtrips", "grammar_schemas", "truncations", "token_mutations", "short_strings"],
         "assumptions": E1_ASSUME + ["hang / unbounded growth verdicts are a 30 s wall cap and a 2 GB address-space cap per block of parses (a parse normally takes microseconds)"],
     },
+    "C15": {
+        "level": "exploration",
+        "rule": "exhaustive: merge_sections_many on every pair of sorted disjoint streams with <=2 intervals whose endpoints come from a set around base 0 and both 50,000-base window boundaries (x value patterns incl. cancelling and explicit zeros), every triple of <=1-interval streams, every <=3-interval stream alone / doubled / negated; merge_into on every overlapping pair over small coordinates; fill and fill_start_to_end on every WL(3) layout x start/end choices; each output compared with the per-base sum (exact: all values dyadic). The merge tool is covered by the tool part (see counters tool_*). non-trivial = every block",
+        "require": ["merge_runs", "merge_runs_with_2+_outputs", "merge_into_calls", "fill_runs"],
+        "assumptions": E1_ASSUME + ["the >978-input file-descriptor chunking path of the merge tool is outside the bounds"],
+    },
+    "C17": {
+        "level": "exploration",
+        "rule": "exhaustive: for every WL(k) bigWig file and multi-chromosome core files, every region 0<=s<e<=16 on every chromosome through stats_for_bed_item and through the bigwig_average_over_bed iterator in 4 name modes; size, bases, sum, mean0, mean, min, max compared with the per-base array (NaN when nothing covered), one row per input row in order with the requested name. non-trivial = >=2 values in the file",
+        "require": ["regions", "iterator_rows"],
+        "assumptions": E1_ASSUME + ["regions on chromosomes absent from the bigWig are outside the property's domain",
+                                    "zero-length stored values inside a region are don't-care for the extrema"],
+    },
 }
 
 HOOKS = {
